@@ -176,6 +176,21 @@ int main(int argc, char** argv)
                 }
             }
         }
+        // (1d') ramp: EVERY number of occurrences from 4 to 1100 (300 under ASan), as separate tokens and in one bundle, on the
+        // first plain lettered declaration - a complete range, so a threshold at 10, 100, 1000 or in between is inside
+        for (size_t di = 0; di < decls.size(); di++)
+        {
+            const Decl& D = decls[di];
+            if (D.items[0].sh.empty() || D.items[0].tdef != 0 || !D.items[0].env.empty())
+                continue;
+            for (size_t n = 4; n <= (a.asan() ? 300u : 1100u); n++)
+                for (auto av : { std::vector<std::string>(n, "-t"), std::vector<std::string>{ "-" + std::string(n, 't') } })
+                {
+                    long idx = ctx.next;
+                    ctx.each([&] { return chk.describe(D, av, {}); }, [&](mc::Report& rep) { chk.run_case(D, av, {}, rep, idx); });
+                }
+            break;
+        }
         // (1e) sizes: 60 toggles (beyond a 32- or 64-bit mask over toggles), defaults 0 / 1 / 2 by rank; every bundle of two
         // letters with one of them at the ranks around 31 / 32 and at the ends, and every toggle alone
         {
